@@ -73,6 +73,15 @@ def run_one(chk, kind, nfr, prior, calls, uni):
             rc = None
         except Exception as e:
             rc = api.exc_name(e)
+        if c[0] == "assign" and rc is None and (len(c) < 3 or c[2] == "list"):
+            # the caller goes on using the list object he passed: the block must own its own container
+            snapshot = list(api.items_of(kind, b))
+            _, short = fresh("short")
+            ps.append(short)
+            ps.append(7)
+            if list(api.items_of(kind, b)) != snapshot:
+                rc = "ALIASED"
+                del ps[-2:]
         after = list(api.items_of(kind, b))
         obs.append((rc, [registry.get(id(x), ["?"]) for x in after], before == after and all(x is y for x, y in zip(before, after)),
                     [getattr(x, "nFrames", getattr(x, "nSamples", None)) for x in after]))
@@ -84,7 +93,9 @@ def judge(chk, kind, nfr, prior, calls, mtracks, mcalls, obs, mres):
     for j, (c, (rc, tracks, same, lens), m) in enumerate(zip(calls, obs, mres)):
         # oracle
         found = None
-        if any(l != nfr for l in lens):
+        if rc == "ALIASED":
+            found = "the block adopted the caller's list: appending to that list afterwards put a wrong-length track and an int into the block"
+        elif any(l != nfr for l in lens):
             found = "the block now holds a track with %r frames (block: %d)" % ([l for l in lens if l != nfr][0], nfr)
         elif c[0] == "add" and c[1].split("@")[0] != "good" and rc is None:
             found = "adding a %s object was accepted" % c[1]
@@ -150,6 +161,32 @@ def run(chk):
         judge(chk, kind, nfr, prior, seq, mt, mc, obs, m[1])
         if chk.n_found() >= 3:
             break
+    check_decoded(chk)
+
+
+def check_decoded(chk):
+    """blocks obtained by decoding: every track has the block's own number of frames, for every gap pattern"""
+    from harness import blocks, codec
+    from harness.c05 import mask_cases
+    cases = mask_cases(chk, 6 if chk.tier == "quick" else 9)
+    for kind, fmt, v in cases:
+        if kind not in ("D3", "FT", "EM"):
+            continue
+        chk.note_case(("decoded", kind, repr(v)[:200]), True)
+        chk.count("decoded block " + kind)
+        try:
+            o = blocks.build(kind, fmt, v)
+            d, _ = blocks.impl_build(kind, fmt, blocks.impl_write(o))
+        except Exception as e:
+            chk.violation("C16 %s: a valid block cannot be encoded and decoded: %s" % (kind, common.exc_info(e)), {"kind": kind, "v": v}, True)
+            continue
+        want = v[0] if kind == "D3" else v[3]
+        got = [getattr(t, "nFrames", getattr(t, "nSamples", None)) for t in api.items_of(kind, d)]
+        if any(g != want for g in got):
+            chk.violation("C16 %s: the decoded block has %d frames but holds tracks of %r frames" % (kind, want, got),
+                          {"kind": kind, "fmt": fmt, "v": v}, True)
+            if chk.n_found() >= 3:
+                return
 
 
 def replay(chk, path):
